@@ -268,14 +268,18 @@ def addModel (cfg : Cfg) (m : Nat) (s : St) : R Unit :=
     | none => .err .valueError s
     | some _ => .ok () { (s.setState m cfg.initial) with models := s.models ++ [m] }
 
+/-- `_can_trigger`: a transition whose destination is not a registered state counts as impossible
+(`get_state` raises ValueError, which the loop swallows by `continue`) -/
+def destOk (cfg : Cfg) (t : Trans) : Bool :=
+  match t.dest with
+  | some d => (cfg.state? d).isSome
+  | none => true
+
 /-- `Machine._can_trigger` (`may_<event>` / `may_trigger`). -/
 def mayLoop (sub : Sub) (sc : Script) (cfg : Cfg) (x : Ctx) : List Trans → St → R Bool
   | [], s => .ok false s
   | t :: ts, s =>
-    let destOk := match t.dest with
-      | some d => (cfg.state? d).isSome
-      | none => true
-    if !destOk then mayLoop sub sc cfg x ts s else
+    if !destOk cfg t then mayLoop sub sc cfg x ts s else
     let attempt : R Bool :=
       (callbacks sub sc .prepareEvent x cfg.prepareEvent s).bind fun _ s1 =>
       (callbacks sub sc .prepare x t.prepare s1).bind fun _ s2 =>
